@@ -59,6 +59,7 @@ func runC41(c *core.Check) {
 	if pk == nil {
 		return
 	}
+	deadStateRule(c, pk) // no unexported field is read without a writer (a cache flag never set, a saved value never saved)
 	info := pk.TypesInfo
 	c.Trust("golang.org/x/tools@v0.29.0 go/cfg", "Go select/close semantics")
 	feeder := prog.NamedType("./x/fakenet", "connFeeder")
